@@ -20,7 +20,8 @@ def qlit(fr):
     return '(%s # %d)' % (('(%d)' % n) if n < 0 else str(n), fr.denominator)
 
 
-CMP = {ast.Gt: lambda a, b: 'Qltb %s %s' % (b, a), ast.GtE: lambda a, b: 'Qle_bool %s %s' % (b, a),
+CMP = {ast.Eq: lambda a, b: 'Qeq_bool %s %s' % (a, b),
+       ast.Gt: lambda a, b: 'Qltb %s %s' % (b, a), ast.GtE: lambda a, b: 'Qle_bool %s %s' % (b, a),
        ast.Lt: lambda a, b: 'Qltb %s %s' % (a, b), ast.LtE: lambda a, b: 'Qle_bool %s %s' % (a, b)}
 
 
@@ -170,8 +171,8 @@ def generate(repo):
             raise Unrecognised('foo = %s' % foo)
         width = int(mm.group(1))
         bad = one(assigns(fn, 'badregion'), 'badregion')
-        bad = subst_name(bad, {'np.absolute(foo)': 'af'})
-        badt = cmp_term(bad, {'af': '(Qabs f)', 'EPS': 'c1f_EPS'})
+        bad = subst_name(bad, {'np.absolute(foo)': 'af', 'foo': 'fo'})
+        badt = cmp_term(bad, {'af': '(Qabs f)', 'fo': 'f', 'EPS': 'c1f_EPS'})
         lo = ast.unparse(one(assigns(fn, 'lowerregion'), 'lowerregion'))
         hi = ast.unparse(one(assigns(fn, 'upperregion'), 'upperregion'))
         ml = re.fullmatch(r'np\.where\(ibad - (\d+) < 0, 0, ibad - (\d+)\)', lo)
